@@ -2535,6 +2535,21 @@ func init() {
 		Run:  runR106})
 }
 
+// looksUpStringTable: f reads a map whose elements are strings (a comparator-name table).
+func looksUpStringTable(f *ssa.Function) bool {
+	hit := false
+	eachInstr(f, func(in ssa.Instruction) {
+		if lk, ok := in.(*ssa.Lookup); ok {
+			if mt, ok := lk.X.Type().Underlying().(*types.Map); ok {
+				if b, ok := mt.Elem().Underlying().(*types.Basic); ok && b.Kind() == types.String {
+					hit = true
+				}
+			}
+		}
+	})
+	return hit
+}
+
 func runR106(c *Ctx) {
 	p := c.P
 	fn := p.anchorFrameFilter()
@@ -2573,6 +2588,13 @@ func runR106(c *Ctx) {
 				if _, isLk := ex.Tuple.(*ssa.Lookup); isLk {
 					first = call
 					return
+				}
+				// ... or handed back by a helper of the package that does the table lookup (builtInInverse)
+				if hc, ok := ex.Tuple.(*ssa.Call); ok {
+					if h := hc.Call.StaticCallee(); h != nil && h.Pkg == cand.Pkg && looksUpStringTable(h) {
+						first = call
+						return
+					}
 				}
 			}
 			// fallback: boolean index argument is a fresh NewBool
